@@ -63,6 +63,11 @@ func (e *Engine) transfer(st *State, to *ssa.BasicBlock) bool {
 	f := st.top()
 	from := f.block
 	f.visits[to.Index]++
+	if st.noPanic && e.maxLoop > 0 && f.visits[to.Index] > concreteLoopLimit && f.info.inLoop[to.Index] && !inHarnessSupport(to.Instrs[0]) {
+		// a loop of the code under test that keeps going with concrete conditions
+		e.prove(st, "loop", fmt.Sprintf("loop terminates (more than %d iterations)", concreteLoopLimit), e.tt.False, to.Instrs[0], "", nil)
+		return false
+	}
 	// phis
 	var idx = -1
 	for i, p := range to.Preds {
@@ -103,6 +108,7 @@ func (e *Engine) run(st *State, stop *ssa.BasicBlock, depth int) []*State {
 			e.abort("fell off block end in " + f.fn.String())
 		}
 		ins := f.block.Instrs[f.ip]
+		e.curIns = ins
 		e.stats.Steps++
 		if e.stats.Steps > e.opts.MaxSteps {
 			e.abort(fmt.Sprintf("step budget (%d) exceeded", e.opts.MaxSteps))
@@ -147,6 +153,11 @@ func (e *Engine) run(st *State, stop *ssa.BasicBlock, depth int) []*State {
 			if f.info.exitIf[f.block.Index] {
 				f.symIters[f.block.Index]++
 			}
+			if e.maxLoop > 0 && st.noPanic && f.symIters[f.block.Index] > e.maxLoop && !inHarnessSupport(ins) {
+				// declared loop bound exceeded: a violation if this iteration is feasible
+				e.prove(st, "loop", fmt.Sprintf("loop bounded by %d iterations", e.maxLoop), e.tt.False, ins, "", nil)
+				return results
+			}
 			if f.symIters[f.block.Index] > e.opts.Unwind {
 				// unwinding assertion: is another iteration still possible?
 				if e.feasible(st, nil) {
@@ -156,7 +167,7 @@ func (e *Engine) run(st *State, stop *ssa.BasicBlock, depth int) []*State {
 				}
 				return results
 			}
-			if f.symIters[f.block.Index] >= 2 || e.alwaysCheck(st) {
+			if checkIter(f.symIters[f.block.Index]) || e.alwaysCheck(st) {
 				feasT = e.feasible(st, c)
 				if feasT {
 					feasF = e.feasible(st, e.tt.BNot(c))
@@ -481,6 +492,12 @@ func (e *Engine) callFunc(st *State, fn *ssa.Function, args []Value, bindings []
 			return h(e, st, fn, args, ins)
 		}
 	}
+	return e.callBody(st, fn, args, bindings, ins)
+}
+
+// callBody executes the SSA body of fn (no intrinsic lookup).
+func (e *Engine) callBody(st *State, fn *ssa.Function, args []Value, bindings []Value, ins ssa.Instruction) []*State {
+	name := fn.String()
 	if len(fn.Blocks) == 0 {
 		e.Cuts["external function "+name+" returns an unknown value"]++
 		return e.ret(st, Poison{"external function " + name})
@@ -674,7 +691,7 @@ func (e *Engine) boundsCheck(st *State, ok *Term, kind string, ins ssa.Instructi
 		e.panicPath(st, kind, ins)
 		return false
 	}
-	if st.noPanic {
+	if st.noPanic && !inHarnessSupport(ins) {
 		if !e.knownPanicSite(st, ok, kind, ins) {
 			e.prove(st, "panic", kind, ok, ins, "", nil)
 		}
@@ -1312,4 +1329,37 @@ func (e *Engine) physLen(st *State, s Slice) int {
 		return len(ag.Elems)
 	}
 	return 0
+}
+
+// inHarnessSupport reports whether ins belongs to the harness support packages (internal/vp...):
+// their bounds checks are not obligations of the code under test.
+func inHarnessSupport(ins ssa.Instruction) bool {
+	if ins == nil || ins.Parent() == nil {
+		return false
+	}
+	fn := ins.Parent()
+	for fn.Parent() != nil {
+		fn = fn.Parent()
+	}
+	return fn.Pkg != nil && strings.Contains(fn.Pkg.Pkg.Path(), "/internal/vp")
+}
+
+const concreteLoopLimit = 300000
+
+// checkIter: feasibility of staying in a symbolic loop is checked on a sparse schedule
+// (iterations 2,3,4,6,8,12,16,24,...): loops bounded by concrete data end by themselves and
+// merging absorbs iterations that turn out infeasible.
+func checkIter(n int) bool {
+	if n < 2 {
+		return false
+	}
+	if n <= 4 {
+		return true
+	}
+	for p := 4; p <= n; p *= 2 {
+		if n == p || n == p+p/2 {
+			return true
+		}
+	}
+	return false
 }
